@@ -60,6 +60,29 @@ struct SimCfg {
 	static void setup() {}
 };
 
+// the DEFAULT allocator: multi::array<T, D> over std::allocator<T>.  The library has overloads that are chosen for std::allocator
+// only (detail/adl.hpp: alloc_uninitialized_copy_n / alloc_uninitialized_copy forward to the adl_ / std:: algorithms and the
+// multidimensional uninitialized_copy), so this is code no backend over sim::allocator executes.  The global operator new/delete
+// of the worker (main.cpp) serve library-side allocations from arena 0, which makes every block a ledger block with guard zones
+// and makes ALLOC_FAIL injectable.  Model: one arena, is_always_equal, propagate_on_container_move_assignment (what std::allocator is).
+template<class Elem, int DMin, int DMax, bool Static = false>
+struct HeapCfg {
+	using elem  = Elem;
+	using alloc = std::allocator<Elem>;
+	template<int D> using array_t = std::conditional_t<Static, boost::multi::static_array<Elem, D>, boost::multi::array<Elem, D>>;
+	template<int D> struct array_t_lazy { using type = boost::multi::array<Elem, D>; };
+	static constexpr bool pocca = false, pocma = true, pocs = false, soccc_default = false, fancy = false;
+	static constexpr int  dmin = DMin, dmax = DMax;
+	static constexpr bool static_arrays = Static;
+	static constexpr bool serialization = false;
+	static constexpr bool mpi = false;
+	static constexpr bool default_init = false;
+	static constexpr bool always_equal = true;
+	static auto make_alloc(int /*arena*/) -> alloc { return alloc{}; }
+	static int  arena_of(alloc const& /*a*/) { return 0; }
+	static void setup() { W.heap_route = true; }
+};
+
 }  // namespace sim
 
 #define MSIM_DEFINE_BACKEND(ident, label, ...)                                                        \
